@@ -480,7 +480,12 @@ def main():
         if k["id"] in printed:
             continue
         printed.add(k["id"])
-        print("KNOWN-FINDING: property=%s %s %s" % (prop, k["id"], k["what"]))
+        if prop in k.get("properties", [prop]):
+            print("KNOWN-FINDING: property=%s %s %s" % (prop, k["id"], k["what"]))
+        else:
+            # the failing obligation sits in a function that also serves this property, but the finding is not a
+            # violation of this property's statement: recorded in the evidence, no KNOWN-FINDING line
+            print("note: known finding %s (listed under %s) lies in a function that also serves %s" % (k["id"], ",".join(k.get("properties", [])), prop))
     replays = []
     if violations:
         os.makedirs(REPLAYS, exist_ok=True)
